@@ -41,7 +41,7 @@ func c01Body() func(h []dsim.Rec) {
 	}
 	n := 1 + dsim.Choose(24)
 	if dsim.Choose(8) == 7 {
-		n = 25 + dsim.Choose(16)
+		n = 25 + dsim.Choose(depth(16, 120))
 	}
 	var frames []*ref.Frame
 	for i := 0; i < n; i++ {
